@@ -2,6 +2,7 @@ package main
 
 import (
 	"fmt"
+	"go/token"
 	"sort"
 	"strings"
 
@@ -39,6 +40,35 @@ func newExec(g *Global, fn *ssa.Function, fc *FuncContract) *Exec {
 	return ex
 }
 
+// ensuresAt checks every postcondition at one return point of the function
+// under contract (per return rather than on the merged exit state: the goals
+// stay free of array-valued if-then-else terms).
+func (ex *Exec) ensuresAt(fr *Frame, pc Term, st State, results []Term, pos token.Pos) {
+	fc, fn := ex.fc, fr.fn
+	if fc == nil {
+		return
+	}
+	ex.nReturns++
+	{
+		se := ex.newSpecEnv(fr, pc, st, fr.entry)
+		ex.bindResults(se, fn, results)
+		ex.applyAt(fr, "post", pc, st, se.vars)
+	}
+	for _, en := range fc.Ensures {
+		se := ex.newSpecEnv(fr, pc, st, fr.entry)
+		se.entryPar = true
+		ex.bindResults(se, fn, results)
+		goal, err := se.evalBool(en.E)
+		o := &Obligation{ID: fmt.Sprintf("%s#%s@%d", ex.fnID, en.Label, ex.nReturns), Func: ex.fnID, Kind: "ensures", Props: en.Props,
+			Where: fmt.Sprintf("%s:%d (return at %s)", strings.TrimPrefix(en.File, "/repo/"), en.Line, posOf(fn, pos))}
+		if err != nil {
+			o.Detail = "spec error: " + err.Error()
+			goal = tFalse
+		}
+		ex.vc.oblige(o, pc, ex.vc.def("ens", goal))
+	}
+}
+
 // verifyFunc generates all obligations for one function under contract.
 func verifyFunc(g *Global, fn *ssa.Function, fc *FuncContract) *FuncResult {
 	ex := newExec(g, fn, fc)
@@ -73,22 +103,14 @@ func verifyFunc(g *Global, fn *ssa.Function, fc *FuncContract) *FuncResult {
 	if len(fc.Ensures) > 0 {
 		ex.vc.cover(&Obligation{ID: ex.fnID + "#cover.return", Func: ex.fnID, Kind: "cover", Props: fc.Props}, rpc)
 	}
-	{
-		se := ex.newSpecEnv(fr, rpc, rst, st)
-		ex.bindResults(se, fn, results)
-		ex.applyAt(fr, "post", rpc, rst, se.vars)
-	}
-	for _, en := range fc.Ensures {
-		se := ex.newSpecEnv(fr, rpc, rst, st)
-		se.entryPar = true
-		ex.bindResults(se, fn, results)
-		goal, err := se.evalBool(en.E)
-		o := &Obligation{ID: fmt.Sprintf("%s#%s", ex.fnID, en.Label), Func: ex.fnID, Kind: "ensures", Props: en.Props, Where: fmt.Sprintf("%s:%d", strings.TrimPrefix(en.File, "/repo/"), en.Line)}
-		if err != nil {
-			o.Detail = "spec error: " + err.Error()
-			goal = tFalse
+	_, _ = rst, results
+	if ex.nReturns == 0 {
+		// no return is reachable (the function always panics or loops): postconditions hold vacuously,
+		// which the cover above reports
+		for _, en := range fc.Ensures {
+			o := &Obligation{ID: fmt.Sprintf("%s#%s", ex.fnID, en.Label), Func: ex.fnID, Kind: "ensures", Props: en.Props, Static: true, Result: "failed", Detail: "no return point reachable: postcondition cannot be anchored"}
+			ex.vc.obls = append(ex.vc.obls, o)
 		}
-		ex.vc.oblige(o, rpc, ex.vc.def("ens", goal))
 	}
 	// anchors: every site clause must have matched at least Min sites
 	for _, s := range fc.Sites {
